@@ -553,16 +553,19 @@ func runG4(p *an.Prog, r *an.Result) {
 			continue
 		}
 		fwd, atEnd, perChild := false, false, false
+		var body, appendAt *ssa.BasicBlock
 		an.EachInstr(h, func(in ssa.Instruction) {
 			switch x := in.(type) {
 			case *ssa.IndexAddr:
 				if x.X == ssa.Value(h.Params[1]) && isForwardRangeIndex(x.Index) {
 					fwd = true
+					body = x.Block()
 				}
 			case *ssa.Call:
 				if b, ok := x.Call.Value.(*ssa.Builtin); ok && b.Name() == "append" {
 					if _, isPhi := x.Call.Args[0].(*ssa.Phi); isPhi {
 						atEnd = true
+						appendAt = x.Block()
 					}
 				}
 				if an.CallName(&x.Call) == "(render.Config).compileNode" {
@@ -570,10 +573,32 @@ func runG4(p *an.Prog, r *an.Result) {
 				}
 			}
 		})
-		if fwd && atEnd && perChild {
-			r.OK(hn, "compiles each child in order and appends the result at the end", an.FuncPos(h), "forward range + append(acc, compiled)")
+		// one-to-one: no iteration gets back to the loop header without having appended
+		skips := false
+		if body != nil && appendAt != nil {
+			seen := map[*ssa.BasicBlock]bool{appendAt: true}
+			var dfs func(b *ssa.BasicBlock)
+			dfs = func(b *ssa.BasicBlock) {
+				if seen[b] {
+					return
+				}
+				seen[b] = true
+				for _, s := range b.Succs {
+					if s.Dominates(body) && s != body {
+						skips = true // back at the loop header (or before it)
+						return
+					}
+					dfs(s)
+				}
+			}
+			if body != appendAt {
+				dfs(body)
+			}
+		}
+		if fwd && atEnd && perChild && !skips {
+			r.OK(hn, "compiles each child in order and appends the result at the end", an.FuncPos(h), "forward range + append(acc, compiled) on every iteration that does not return")
 		} else {
-			r.Bad(hn, "children not compiled one-to-one in order", an.FuncPos(h), fmt.Sprintf("forward range: %v, append at end: %v, compileNode per child: %v", fwd, atEnd, perChild))
+			r.Bad(hn, "children not compiled one-to-one in order", an.FuncPos(h), fmt.Sprintf("forward range: %v, append at end: %v, compileNode per child: %v, an iteration can skip the append: %v", fwd, atEnd, perChild, skips))
 		}
 	}
 }
